@@ -217,8 +217,11 @@ async def scenario(kind, labels, expected, clients_kind, repo_src):
         cli_args = ["tcp", "127.0.0.1", str(port)]
         opener = lambda: asyncio.open_connection("127.0.0.1", port)   # noqa: E731
     task = None
+    old_tasks = []          # serving tasks of earlier runs
     stop_requested = False
     clients, refused, lines, notes = [], 0, [], []
+    pool_closed = False
+    overlap = False         # some run was started while the previous serving task was unfinished
     start_dt = None
 
     def observe():
@@ -227,7 +230,9 @@ async def scenario(kind, labels, expected, clients_kind, repo_src):
         conns = ",".join(
             f"{int(c.open)}:{'?' if c.kind == 'cli' else int(c.open and not c.server_closed())}:{c.replies}"
             for c in clients) or "-"
+        raised = (task is not None and task.done() and not task.cancelled() and task.exception() is not None)
         return (f"listening={int(server.is_serving())} done={int(task is not None and task.done())} "
+                f"drain={sum(1 for t in old_tasks if not t.done())} overlap={int(overlap)} raised={int(raised)} "
                 f"sock={int(kind == 'unix' and os.path.exists(path))} refused={refused} conns={conns}")
 
     def normal(o):
@@ -238,10 +243,21 @@ async def scenario(kind, labels, expected, clients_kind, repo_src):
         for i, lab in enumerate(labels):
             w = lab.split()
             if w[0] == "start":
-                if task is None or task.done():     # first start, or restart after a completed stop
+                # first start; restart after a completed stop; or a new run while the cancelled
+                # task of the previous one still waits for its lingering clients
+                if task is None or task.done() or stop_requested:
+                    if task is not None:
+                        old_tasks.append(task)
+                        overlap = overlap or not task.done()
                     stop_requested = False
                     t0 = asyncio.get_running_loop().time()
-                    task = await asyncio.wait_for(server.serve_forever(), STEP_TIMEOUT)
+                    try:
+                        task = await asyncio.wait_for(server.serve_forever(), STEP_TIMEOUT)
+                    except asyncio.TimeoutError:
+                        notes.append(f"serve_forever() did not return within {STEP_TIMEOUT:.0f}s "
+                                     f"(label {i}: {lab})")
+                        lines.append(f"{lab} ; {normal(observe())}")
+                        break
                     start_dt = asyncio.get_running_loop().time() - t0
             elif w[0] == "connect":
                 ck = clients_kind[len(clients)] if len(clients) < len(clients_kind) else "raw"
@@ -306,7 +322,7 @@ async def scenario(kind, labels, expected, clients_kind, repo_src):
                 j = int(w[1])
                 if j < len(clients) and clients[j].open and getattr(clients[j], "hello", True) \
                         and not getattr(clients[j], "waiting", False) and clients[j].kind == "raw":
-                    clients[j].waiting = True
+                    clients[j].waiting = not pool_closed
                     await clients[j].send("until-closed")
             elif w[0] == "leave":
                 j = int(w[1])
@@ -318,6 +334,13 @@ async def scenario(kind, labels, expected, clients_kind, repo_src):
                 j = int(w[1])
                 if j < len(clients) and clients[j].open:
                     await clients[j].leave("abort" if clients[j].kind == "raw" else "eof")
+            elif w[0] == "closepool":
+                # the pool is closed from outside: waiting commands (until-closed) return
+                await asyncio.wait_for(pool.gather_and_close(), STEP_TIMEOUT)
+                pool_closed = True
+                for c in clients:
+                    if getattr(c, "waiting", False):
+                        c.waiting = False
             elif w[0] == "stop":
                 # one cancellation per run of the server (a second cancel() of a task that is
                 # already winding down would interrupt its wait for the remaining clients)
@@ -343,16 +366,19 @@ async def scenario(kind, labels, expected, clients_kind, repo_src):
             lines.append(f"{lab} ; {got}")
         if start_dt is not None and start_dt > 1.0:
             notes.append(f"serve_forever() took {start_dt:.2f}s to return")
-        if task is not None and task.done() and not task.cancelled() and task.exception() is not None:
-            notes.append(f"serving task raised {task.exception()!r}")
+        for t in old_tasks + ([task] if task is not None else []):
+            if t.done() and not t.cancelled():
+                t.exception()       # retrieved: what it was is part of the observation (raised=)
     finally:
         for c in clients:
             with contextlib.suppress(Exception):
                 await c.kill()
-        if task is not None and not task.done():
-            task.cancel()
+        pending = [t for t in old_tasks + ([task] if task is not None else []) if not t.done()]
+        for t in pending:
+            t.cancel()
+        if pending:
             with contextlib.suppress(BaseException):
-                await asyncio.wait({task}, timeout=0.5)
+                await asyncio.wait(set(pending), timeout=0.5)
         os.chdir(old_cwd)
         shutil.rmtree(tmp, ignore_errors=True)
     return lines, notes
